@@ -196,6 +196,8 @@ type RunResult struct {
 	TaskPanics []string
 	BubbleErr  string
 	Externals  int
+	// Adoptions: goroutines started by the program under test that the kernel took over as tasks.
+	Adoptions int
 }
 
 // RunSim executes body as the client task of a fresh simulated world inside a fresh bubble.
@@ -240,6 +242,7 @@ func RunSim(t *testing.T, seed uint64, pol sim.Policy, maxSteps int, horizon tim
 			res.SchedHash = k.SchedHash()
 			res.VirtualNs = k.Now()
 			res.Externals = k.Externals
+			res.Adoptions = k.Adoptions
 			if res.Verdict != sim.AllDone {
 				res.Unfinished = k.Unfinished()
 				hangNote.Store(fmt.Sprintf("the kernel had already ended the run with verdict %s (unfinished tasks %v) and was waiting for the tasks to unwind", res.Verdict, res.Unfinished))
